@@ -393,6 +393,9 @@ fn gen_program_impl(rng: &mut Rng, cfg: &GenCfg, single: bool) -> Prog {
         let c: Vec<&Node> = pool.iter().rev().filter(|n| { let t = n.get_type().unwrap(); t.is_array() || t.is_scalar() }).collect();
         // prefer a late node that is not an input
         match c.iter().find(|n| !n.get_operation().is_input()) { Some(n) => (**n).clone(), None => (*c[0]).clone() }
+    } else if rng.chance(1, 5) && pool.len() >= 3 {
+        // an output node in the middle of the graph: later nodes may read it, or are dead code
+        pool[rng.below(pool.len() as u64 - 1) as usize].clone()
     } else {
         let k = std::cmp::min(pool.len(), 1 + rng.below(4) as usize);
         let outs: Vec<Node> = pool.iter().rev().take(k).cloned().collect();
